@@ -12,6 +12,7 @@ package playtak
 
 import (
 	"context"
+	"fmt"
 	"strconv"
 	"time"
 
@@ -34,6 +35,8 @@ type VerifCompose struct {
 	// Left is called when the real GetMove has returned (panicked: it panicked; the harness plays dead).
 	Left   func(m tak.Move, panicked bool)
 	Parked chan struct{}
+	// LastPanic: what the real GetMove panicked with (set before Left(_, true))
+	LastPanic string
 
 	v *VerifGlue
 }
@@ -144,6 +147,7 @@ func (c *VerifCompose) GetMove(ctx context.Context, p *tak.Position, mine, their
 			// a panic on a thinker goroutine ends the real process: the harness plays dead, this goroutine
 			// stays where it is (moveLock held) until the session is torn down
 			ret = tak.Move{}
+			c.LastPanic = fmt.Sprint(r)
 			c.Left(ret, true)
 			<-c.Parked
 			return
